@@ -39,7 +39,7 @@ REQUIRED_REACH = ['Transformation.py:transformation', 'transformation_quad',
                   'normalize_matrix6', 'ParseMCNPCell.parse_trcl_kw']
 
 ATTACH = ['surf-tr', 'trcl-num', 'trcl-inline12', 'trcl-inline3',
-          'trcl-inline13', 'trcl-star', 'implicit']
+          'trcl-inline13', 'trcl-star', 'implicit', 'trcl-pair']
 KINDS = [('p', 'general'), ('p', 'axis+'), ('px', 'any'), ('s', 'any'),
          ('c/z', 'any'), ('cx', 'any'), ('k/y', 'plus'), ('kz', 'minus'),
          ('kx', 'two'), ('k/x', 'minus'), ('tz', 'circular'),
@@ -48,6 +48,9 @@ KINDS = [('p', 'general'), ('p', 'axis+'), ('px', 'any'), ('s', 'any'),
          ('box', 'rotated'), ('rpp', 'any'), ('rcc', 'rotated'),
          ('rhp', '15-irregular'), ('rec', '12-rotated'), ('trc', 'shrinking'),
          ('ell', 'neg-prolate'), ('wed', 'rotated'), ('arb', 'tetra')]
+PAIR_KINDS = [('tz', 'circular'), ('ty', 'elliptic'), ('tx', 'circular'),
+              ('sq', 'ellipsoid'), ('k/y', 'plus'), ('box', 'rotated'),
+              ('rcc', 'rotated'), ('tz', 'elliptic')]
 SPELLINGS = ['12', '13', 'star', '6-rows', '6-cols', '5']
 
 _PER = {'quick': 5, 'thorough': 120}
@@ -74,6 +77,11 @@ def build(case):
     if attach == 'trcl-inline3':
         rot = 'translation'
     kind, fam = KINDS[(case.index * 5 + rng.randrange(len(KINDS))) % len(KINDS)]
+    if attach == 'trcl-pair':
+        kind, fam = PAIR_KINDS[(case.index + rng.randrange(len(PAIR_KINDS)))
+                               % len(PAIR_KINDS)]
+        if rot in ('identity', 'translation', 'near-axis'):
+            rot = 'generic'
     macro = kind in ref.MACROBODIES
     params = macrobody(rng, kind, fam) if macro else elementary(rng, kind, fam)
     motion = motion_of_class(rng, rot)
@@ -103,6 +111,28 @@ def build(case):
         form = attach.split('-')[1]
         for cel in probe_cells:
             cel.trcl = tr_spec(rng, motion, form)
+    elif attach == 'trcl-pair':
+        # the same surface card used by two groups of cells under two
+        # different transformations (rotations about the object's centre, so
+        # that the moved objects differ in orientation only)
+        if not macro and kind in ('tx', 'ty', 'tz', 's', 'sq'):
+            for k in range(3):
+                sur.params[k if kind != 'sq' else 7 + k] = 0.0
+            motion = type(motion)([0.0, 0.0, 0.0], motion.b)
+        second = motion_of_class(rng, 'generic' if rot != 'generic'
+                                 else rng.choice(['generic', 'quarter']))
+        second = type(motion)(motion.o, second.b)
+        forms = [rng.choice(['inline12', 'star']) for _ in range(2)]
+        extra_cells = []
+        for cel in probe_cells:
+            cel.trcl = tr_spec(rng, motion, forms[0])
+            twin = cel.copy()
+            twin.id = cel.id + 100
+            twin.mat = cel.mat
+            twin.trcl = tr_spec(rng, second, forms[1])
+            extra_cells.append(twin)
+        deck.cells[-1:-1] = extra_cells
+        deck.second_motion = second
     elif attach == 'implicit':
         # cell 1 carries the TRCL; cells 2 and 3 refer to its moved surface
         trs.append(tr_card(rng, 7, motion, spelling))
@@ -140,10 +170,15 @@ def run(case, ctx):
         return out
     unj = None
     if sur.kind == 'trc':
-        mot = deck.case_motion
+        mots = [deck.case_motion]
+        if getattr(deck, 'second_motion', None) is not None:
+            mots.append(deck.second_motion)
 
-        def unj(pts, _par=sur.params, _mot=mot):
-            return ref.trc_beyond_apex(_par, _mot.to_aux(pts))
+        def unj(pts, _par=sur.params, _mots=mots):
+            mask = ref.trc_beyond_apex(_par, _mots[0].to_aux(pts))
+            for mot in _mots[1:]:
+                mask = mask | ref.trc_beyond_apex(_par, mot.to_aux(pts))
+            return mask
     res = region_agreement(case, ctx, out, deck, run_, n_uniform=2000,
                            unjudged=unj)
     if res is None:
